@@ -5,7 +5,13 @@ PIECES = [b'"', b"'", b"\\", b"\r", b"\n", b"\r\n", b"\t", b"|", b";", b",", b"\
 WORDS = [b"actor", b"must", b"comply", b"policy", b"x", b"y"]
 
 
-def hostile_text(rng, structural=True, maxlen=4):
+# a backslash in front of every letter that has a meaning after a backslash in JSON (incomplete and complete escapes)
+ESCAPES = [b"\\u", b"\\users", b"\\u00", b"\\u12G4", b"\\upload", b"\\b", b"\\f", b"\\r", b"\\t", b"\\/", b"\\\\u", b"\\\\", b"\\x41", b"\\\"", b"C:\\users\\public"]
+
+
+def hostile_text(rng, structural=True, maxlen=4, escapes=0.0):
+    if escapes and rng.random() < escapes:
+        return (rng.choice(WORDS) + b" " if rng.random() < 0.5 else b"") + rng.choice(ESCAPES) + (rng.choice([b"", b" ", b"1", b"a"]) + rng.choice(WORDS) if rng.random() < 0.6 else b"")
     """Any byte string is a legal leaf of a built tree; structural=False leaves out brackets for parsed text."""
     if rng.random() < 0.04:
         return rng.choice([b" ", b"\t", b"  ", b" \t "])      # a blank value (what "X,p( )" leaves behind)
